@@ -122,9 +122,9 @@ def main(tier):
             tasks.append(('tok', pi, TOKENS, L, k, NP))
         plan.append('tokens<=%d on %s' % (L, pname))
         for k in range(8):
-            tasks.append(('tok', pi, BYTES, 5 if pi in (3, 4) or not quick else 4, k, 8))
-        for k in range(2):
-            tasks.append(('tok', pi, TOKENS2, 4 if quick else 5, k, 2))
+            tasks.append(('tok', pi, BYTES, 5 if pi == 3 or not quick else 4, k, 8))
+        for k in range(4):
+            tasks.append(('tok', pi, TOKENS2, (4 if pi in (3, 4) else 3) if quick else 5, k, 4))
         for fname, data in files:
             what = 'both' if (not quick or pi in (3, 4)) else 'trunc'
             muts = mutations(data, what)
@@ -141,7 +141,7 @@ def main(tier):
     samples = []
     with C.Pool(b, 16) as pool:
         # long tasks first
-        tasks.sort(key=lambda t: -(15 ** t[3] // t[5] if t[0] == 'tok' else len(t[2]) * 3))
+        tasks.sort(key=lambda t: -(len(t[2]) ** t[3] // t[5] if t[0] == 'tok' else len(t[2]) * 3))
         for r in pool.imap(_task, tasks):
             if 'harness_error' in r:
                 raise common.HarnessError(r['harness_error'])
